@@ -60,6 +60,68 @@ reg("C06", "bounded-exhaustive exploration: every operator table up to 4 (6 "
     "trusted: precedence climbing reference, canonical LR(1) for the LALR(1) "
     "test", "DESIGN.md section 8 C06")
 
+BE = ("bounded-exhaustive exploration of the real implementation (stateless, "
+      "every case of a finite space enumerated) against an executable "
+      "reference model: ")
+reg("C02", BE + "forest tree set vs reference SPPF tree set for every acyclic "
+    "small grammar x lexeme map x table kind x sentence",
+    "Every derivation the chart reference finds must be in the forest; "
+    "exhaustive for grammars <= 3 (quick) / <= 4 productions, inputs <= 4/5. "
+    "The known revisit/identity defects are matched against committed witness "
+    "maps (case + digest); anything else is a violation.",
+    "trusted: chart/SPPF reference; witness maps generated from a complete "
+    "thorough run", "DESIGN.md section 8 C02")
+reg("C03", BE + "own forest walker as ground truth vs Forest's counting, "
+    "indexing, iteration, lazy/non-lazy access, get_first_tree, out-of-range "
+    "indexes, LoopError; big-integer counts against a Catalan DP",
+    "Every index of every forest of the domain (all when len <= 300, else "
+    "first/last 64) is decoded through every access path and compared.",
+    "trusted: own walker over Parent/NodeNonTerm objects; chart reference for "
+    "the LoopError clause", "DESIGN.md section 8 C03")
+reg("C07", BE + "token choice in every LR state (every subset of every small "
+    "terminal set made an expected set) vs the documented rule list on the "
+    "full candidate set; GLR forks without lexical disambiguation",
+    "All sets of <= 2 terminal profiles completely, windows of 3 (quick) / all "
+    "of 3 and a window of 4 (thorough); marks and ignore_case families.",
+    "trusted: pgmc/ref/scanner.py (docs/disambiguation.md)",
+    "DESIGN.md section 8 C07")
+reg("C08", BE + "structural position invariants, losslessness and positions "
+    "seen by actions on every node of every tree, ws and LAYOUT layout, LR "
+    "and GLR", "Exhaustive over small grammars x sentences with layout in "
+    "every gap. Known GLR empty-after-layout defect matched by witness map.",
+    "trusted: invariants are definitional; bounded", "DESIGN.md section 8 C08")
+reg("C09", BE + "on-the-fly actions vs call_actions(tree) vs GLR call_actions "
+    "vs a reference evaluator over the derivation tree, for every placement "
+    "of named matches and action style",
+    "Every decoration of every small grammar, every accepted input <= 4.",
+    "trusted: reference evaluator in props/c09.py", "DESIGN.md section 8 C09")
+reg("C10", BE + "every non-sentence (plus access string of every table state "
+    "+ every terminal) vs an Earley viable-prefix oracle: exception type, "
+    "position, line/column, end-of-file wording, str(), symbols_expected",
+    "GLR, deterministic LR and LR with resolved conflicts, LALR and SLR, "
+    "lexical overlap maps, list inputs.",
+    "trusted: Earley over the token lattice; STOP excluded from "
+    "symbols_expected comparison", "DESIGN.md section 8 C10")
+reg("C13", BE + "sugared grammar vs its documented BNF expansion (shared "
+    "helpers) through Parser/GLRParser in four configurations, and vs the "
+    "chart; greedy and helper-name-collision families",
+    "All 1- and 2-item rule shapes (quick: window of 2-item), 3-item over a "
+    "reduced item set (thorough), every input up to the bound.",
+    "trusted: pgmc/ref/sugar.py mirrors the docs' equivalence notes",
+    "DESIGN.md section 8 C13")
+reg("C14", BE + "metamorphic: every assignment of layout fillers to every gap "
+    "of every short token string vs the single-space rendering; ws vs "
+    "equivalent LAYOUT rule incl. positions and layout_content",
+    "LR and GLR, LALR and SLR, ws characters and (nested) comments.",
+    "trusted: metamorphic relation; single-character terminals",
+    "DESIGN.md section 8 C14")
+reg("C17", BE + "consume_input=False: GLR tree set vs union of reference "
+    "derivations of all sentence prefixes; LR result is a derivation of a "
+    "sentence prefix; cause oracle (twin instance) for the STOP-dropped finding",
+    "Acyclic small grammars x lexical_disambiguation on/off x every input.",
+    "trusted: chart reference with prefix roots; intervention-based "
+    "attribution for STOP-DROPPED", "DESIGN.md section 8 C17")
+
 NOT_YET = "check not built yet in this round (planned, see DESIGN.md section 8/12)"
 
 checks = []
